@@ -15,6 +15,7 @@ import (
 
 	v1 "github.com/fatedier/frp/pkg/config/v1"
 	"github.com/fatedier/frp/pkg/msg"
+	plugin "github.com/fatedier/frp/pkg/plugin/client"
 	"github.com/fatedier/frp/pkg/util/limit"
 	"github.com/fatedier/frp/zzverif"
 )
@@ -84,6 +85,20 @@ var c01S struct {
 	headerWrite int
 }
 
+// a client plugin that keeps the connection after Handle returns (as the http-server based plugins do)
+type c01Plugin struct {
+	got              []*plugin.ConnectionInfo
+	recycledAtHandle int
+}
+
+func (p *c01Plugin) Name() string { return "c01" }
+func (p *c01Plugin) Handle(ctx context.Context, ci *plugin.ConnectionInfo) {
+	cp := *ci
+	p.got = append(p.got, &cp)
+	p.recycledAtHandle = c01S.recycled
+}
+func (p *c01Plugin) Close() error { return nil }
+
 func c01StubWithEncryption(rwc io.ReadWriteCloser, key []byte) (io.ReadWriteCloser, error) {
 	if c01S.encFails {
 		return nil, errC01
@@ -129,6 +144,11 @@ func VerifC01ClientStack() {
 		lim = &rate.Limiter{}
 	}
 	pxy := &BaseProxy{baseCfg: cfg, clientCfg: &v1.ClientCommonConfig{}, limiter: lim, ctx: context.Background()}
+	var plg *c01Plugin
+	if zzverif.Bool("handledByPlugin") {
+		plg = &c01Plugin{}
+		pxy.proxyPlugin = plg
+	}
 	c01S.encFails, c01S.dialFails = zzverif.Bool("encFails"), zzverif.Bool("dialFails")
 	c01S.recycled, c01S.joins, c01S.joinA, c01S.joinB, c01S.local, c01S.headerWrite = 0, 0, nil, nil, nil, 0
 	work := &c01Conn{name: "work"}
@@ -138,6 +158,50 @@ func VerifC01ClientStack() {
 	}
 	pxy.HandleTCPWorkConnection(work, m, []byte("tok"))
 
+	if plg != nil {
+		if len(plg.got) == 0 {
+			zzverif.Assert(work.closed >= 1 && cfg.Transport.UseEncryption && c01S.encFails, "C01.client.plugin-not-reached-only-on-cipher-failure-and-then-closed")
+			return
+		}
+		zzverif.Reach("C01.client.plugin")
+		ci := plg.got[0]
+		zzverif.Assert(len(plg.got) == 1 && c01S.joins == 0 && c01S.local == nil, "C01.client.plugin-handles-instead-of-the-backend-dial")
+		zzverif.Assert(ci.UnderlyingConn == net.Conn(work), "C01.client.plugin-gets-this-work-conn")
+		// the plugin keeps using the stream after Handle returned: its compressor must still be its own
+		zzverif.Assert(c01S.recycled == 0, "C02.client.compressor-not-recycled-while-the-plugin-holds-the-stream")
+		zzverif.Assert(work.closed == 0, "C01.client.plugin-stream-left-open")
+		var kinds string
+		cur := ci.Conn
+		for i := 0; i < 5; i++ {
+			l, ok := cur.(*c01Layer)
+			if !ok {
+				break
+			}
+			kinds += l.kind + ","
+			if l.kind == "limit" {
+				cur = work
+			} else {
+				cur = l.inner
+			}
+		}
+		want := ""
+		if cfg.Transport.UseCompression {
+			want += "comp,"
+		}
+		if cfg.Transport.UseEncryption {
+			want += "enc,"
+		}
+		if lim != nil {
+			want += "limit,"
+		}
+		zzverif.Assert(kinds == want && cur == io.ReadWriteCloser(work), "C01.client.plugin-gets-the-layers-exactly-as-configured")
+		zzverif.Assert((ci.SrcAddr != nil) == (m.SrcAddr != ""), "C01.client.plugin-gets-the-user's-address-iff-announced")
+		wantHeader := cfg.Transport.ProxyProtocolVersion != "" && m.SrcAddr != ""
+		zzverif.Assert((ci.ProxyProtocolHeader != nil) == wantHeader, "C01.client.plugin-gets-the-proxy-protocol-header-iff-declared")
+		_ = ci.Conn.Close()
+		zzverif.Assert(work.closed >= 1, "C01.client.closing-the-stack-closes-the-work-conn")
+		return
+	}
 	if c01S.joins == 0 {
 		zzverif.Assert(work.closed >= 1, "C01.client.work-conn-closed-when-not-bridged")
 		zzverif.Assert((cfg.Transport.UseEncryption && c01S.encFails) || c01S.dialFails, "C01.client.not-bridged-only-on-failure")
